@@ -26,7 +26,10 @@ RULE = ('1-8 coroutines whose bodies replay a script of yield values (None, '
         'accumulated since its yield reaches n, every runnable coroutine '
         'takes exactly one step per frame, coroutines that stay runnable '
         'keep their relative order. Non-trivial = >=2 overlapping waits '
-        'started in different frames under uneven dt.')
+        'started in different frames under uneven dt.'
+        ' Rounds 9-13 added: 5-16 sleepers (distinct or equal waits) of'
+        ' which some are killed and restarted while asleep; bodies raising'
+        ' exceptions that are not Exceptions.')
 ANCHORS = [
     'desper/logic/coroutines.py::CoroutineProcessor.start',
     'desper/logic/coroutines.py::CoroutineProcessor.process',
